@@ -25,6 +25,10 @@ func ZZH16aNesting() {
 	// plugctx: a plugin tracks block statements with a context type of its own (PushContext/PopContext around next());
 	// nilstmt: a plugin strips expression statements from the tree by returning nil after parsing them
 	plugctx, nilstmt := sym.Param("plugctx", 0) == 1, sym.Param("nilstmt", 0) == 1
+	// direct: the interceptors call the exported parse functions of the construct themselves instead of next()
+	// (ParseFunctionStatement / ParseBlockStatement / ParseFunctionExpression + ParseRemainingExpression);
+	// stmtdriven: the parser is driven statement by statement through ParseStatement, without ParseProgram
+	direct, stmtdriven := sym.Param("direct", 0) == 1, sym.Param("stmtdriven", 0) == 1
 	pb.UseStatementInterceptor(func(p *parser.Parser, next func() ast.Statement) ast.Statement {
 		log = append(log, ctxLog{p.CurrentToken.End.Column, p.IsInFunction(), p.CurrentContext(), 0})
 		if plugctx && p.CurrentToken.Type == token.LBRACE {
@@ -32,6 +36,12 @@ func ZZH16aNesting() {
 			st := next()
 			p.PopContext()
 			return st
+		}
+		if direct && p.CurrentToken.Type == token.FUNCTION {
+			return p.ParseFunctionStatement()
+		}
+		if direct && p.CurrentToken.Type == token.LBRACE {
+			return p.ParseBlockStatement()
 		}
 		st := next()
 		if _, isExpr := st.(*ast.ExpressionStatement); isExpr && nilstmt {
@@ -41,11 +51,26 @@ func ZZH16aNesting() {
 	})
 	pb.UseExpressionInterceptor(func(p *parser.Parser, next func() ast.Expression) ast.Expression {
 		log = append(log, ctxLog{p.CurrentToken.End.Column, p.IsInFunction(), p.CurrentContext(), 1})
+		if direct && p.CurrentToken.Type == token.FUNCTION {
+			left := p.ParseFunctionExpression()
+			return p.ParseRemainingExpression(left)
+		}
 		return next()
 	})
 	p := pb.Build("")
-	_, err := p.ParseProgram()
-	sym.Assert(err == nil, "valid-program-accepted")
+	accepted := true
+	if stmtdriven {
+		for p.CurrentToken.Type != token.EOF {
+			p.ParseStatement()
+			sym.Assert(p.CurrentContext() == parser.GlobalContext && !p.IsInFunction(), "context-global-after-each-top-level-statement")
+			p.NextToken()
+		}
+		accepted = len(p.Errors()) == 0
+	} else {
+		_, err := p.ParseProgram()
+		accepted = err == nil
+	}
+	sym.Assert(accepted, "valid-program-accepted")
 	sym.Assert(len(log) > 0, "interceptors-ran")
 	for _, e := range log {
 		if e.tok < 0 || e.tok >= len(g.Toks) {
